@@ -225,6 +225,29 @@ def verus_lane(pid, tier, cov, ledger, findings, assumptions):
                 tags.append(oid)
         if tags:
             out['undecided'].append('%s: does not compile against the current crate (removed from this run): undecided' % tags[0])
+    # modules whose struct definitions differ from the baseline: the contracts' abstraction (shape_ok / num_ok / window) is defined
+    # over the fields, so a failure there means "the proof no longer applies", not "the property is violated"
+    repr_changed = set()
+    try:
+        import layout as LAY
+        for rel_, names_ in getattr(w, 'struct_files', {}).items():
+            bp = os.path.join(ck.BASELINE_SRC, rel_)
+            cp = os.path.join(ck.REPO, 'src', rel_)
+            if os.path.exists(bp) and os.path.exists(cp) and rel_ not in getattr(w, 'substituted', []):
+                def fields_of(path):
+                    t = open(path).read()
+                    m_ = V.mask(t)
+                    res_ = {}
+                    for it_ in V.split_items(t, m_, 0, len(t)):
+                        if it_.kind == 'struct' and it_.body_lo >= 0:
+                            res_[it_.name] = LAY.parse_struct_fields(m_[it_.body_lo:it_.body_hi])
+                    return res_
+                if fields_of(bp) != fields_of(cp):
+                    repr_changed.add(rel_[:-3].replace('/', '::'))
+    except Exception as e_:
+        out['undecided'].append('struct comparison with the baseline failed: %r' % (e_,))
+    if repr_changed:
+        cov['modules_with_changed_struct_fields'] = sorted(repr_changed)
     subst_mods = set(r[:-3].replace('/', '::') for r in getattr(w, 'substituted', []))
     if subst_mods:
         cov['modules_replaced_by_baseline_text'] = sorted(subst_mods)
@@ -255,6 +278,9 @@ def verus_lane(pid, tier, cov, ledger, findings, assumptions):
             rel = f.module.replace('::', '/') + '.rs'
             if w.lost_items.get(rel):
                 out['undecided'].append('%s fails but contract items lost their anchor in %s (%s): not a verdict' % (ob_id, rel, w.lost_items[rel][0]))
+                continue
+            if f.module in repr_changed:
+                out['undecided'].append('%s fails, but the struct fields of module %s differ from the baseline: the contracts (abstraction over the fields) no longer apply -- not a verdict' % (ob_id, f.module))
                 continue
             if lost_here:
                 out['undecided'].append('%s fails but proof hints lost their anchor (%s): not a verdict' % (ob_id, lost_here[0]))
